@@ -273,7 +273,18 @@ def _cfg(n):
     return True
 
 
+def _prune(forest):
+    """7.5.1: a non-presence container without children is equivalent to its absence"""
+    out = []
+    for d in forest:
+        c = yanggen.DNode(d.schema, d.value, _prune(d.children), list(d.meta))
+        if _np(d.schema) and not c.children:
+            continue
+        out.append(c)
+    return out
+
+
 def py_violations(module, forest, type_ok=None):
     viol = set()
-    _level(module.nodes, forest, viol, type_ok)
+    _level(module.nodes, _prune(forest), viol, type_ok)
     return viol
